@@ -399,7 +399,12 @@ func (w *Worker) convert(from, to types.Type, v Value) Value {
 				} else if u, ok := x.ConstU(); ok {
 					return FloatV(float64(u))
 				}
-				w.unsupported("conversion of symbolic integer to float")
+				u := w.concretizeAny(x, w.prog.maxConcretize, "integer converted to float")
+				if fsigned {
+					sh := uint(64 - fw)
+					return FloatV(float64(int64(u<<sh) >> sh))
+				}
+				return FloatV(float64(u))
 			}
 			if tb.Info()&types.IsString != 0 {
 				if u, ok := x.ConstU(); ok {
